@@ -88,6 +88,51 @@ class Resolver:
                 return qual in self.program.classes
         return False
 
+    def _positional(self, func: Term, args: list, kwargs: tuple) -> tuple[list, tuple]:
+        """Move keyword arguments of calls to in-package methods into their positions when every candidate callee
+        of that name agrees on the parameter order (so `f(a, b)` and `f(x=a, y=b)` resolve to the same term)."""
+        if func[0] == "attr":
+            name = func[2]
+            cands = [c.methods[name] for c in self.program.classes.values() if name in c.methods]
+            skip = 1
+        elif func[0] == "global" and func[1].startswith(self.program.package):
+            last = func[1].split(".")[-1]
+            f = self.program.functions.get(last)
+            cands = [f] if f is not None and f.cls is None else []
+            skip = 0
+            if not cands:
+                parts = func[1].split(".")
+                if len(parts) >= 2 and parts[-2] in self.program.classes and parts[-1] in self.program.classes[parts[-2]].methods:
+                    cands = [self.program.classes[parts[-2]].methods[parts[-1]]]
+                    skip = 0 if cands[0].is_static else 1
+        else:
+            return args, kwargs
+        kwnames = {k for k, _ in kwargs}
+        cands = [f for f in cands if kwnames <= {x.name for x in f.params}]
+        if not cands:
+            return args, kwargs
+        orders = set()
+        for f in cands:
+            ps = [x.name for x in f.params if x.kind in ("pos", "posonly")]
+            ps = ps[(0 if f.is_static else 1):] if func[0] == "attr" else ps[skip:]
+            orders.add(tuple(ps))
+        kw = dict(kwargs)
+        if "**" in kw:
+            return args, kwargs
+        out = list(args)
+        for order in orders:
+            need = list(order[len(args):])
+            # all candidates must place the given keywords contiguously right after the positional arguments
+            if need[:len(kw)] and set(need[:len(kw)]) == set(kw):
+                continue
+            return args, kwargs
+        order = next(iter(orders))
+        if len({tuple(o[len(args):len(args) + len(kw)]) for o in orders}) != 1:
+            return args, kwargs
+        for n in order[len(args):len(args) + len(kw)]:
+            out.append(kw[n])
+        return out, ()
+
     # ---------------------------------------------------------------- names
     def _global(self, name: str) -> Term:
         return ("global", self.program.resolve_global(name, self.mod))
@@ -137,6 +182,9 @@ class Resolver:
             it_nodes = [p for p, _ in d.node.pred if p.kind == "iter" and p.ast is d.value]
             at = it_nodes[0] if it_nodes else d.node
             t = self.term(d.value, at)  # type: ignore[arg-type]
+            if not d.path and t[0] == "call" and t[1] == ("global", "range") and len(t[2]) == 1 and t[2][0][0] == "call" and \
+                    t[2][0][1] == ("global", "len") and len(t[2][0][2]) == 1:
+                return ("index", t[2][0][2][0])  # for i in range(len(X)): i is the index into X
             if t[0] == "call" and t[1] == ("global", "enumerate") and len(t[2]) >= 1 and len(d.path) >= 1:
                 inner = t[2][0]
                 if d.path[0] == 0:
@@ -176,6 +224,8 @@ class Resolver:
                 else:
                     args.append(self.term(a, node))
             kwargs = tuple(sorted(((k.arg or "**"), self.term(k.value, node)) for k in e.keywords))
+            if kwargs:
+                args, kwargs = self._positional(func, args, kwargs)
             return ("call", func, tuple(args), kwargs)
         if isinstance(e, ast.BinOp):
             return ("binop", binop_symbol(e.op), self.term(e.left, node), self.term(e.right, node))
@@ -190,7 +240,10 @@ class Resolver:
         if isinstance(e, ast.IfExp):
             return ("ifexp", self.term(e.test, node), self.term(e.body, node), self.term(e.orelse, node))
         if isinstance(e, ast.Subscript):
-            return ("sub", self.term(e.value, node), self.term(e.slice, node))
+            base, idx = self.term(e.value, node), self.term(e.slice, node)
+            if idx == ("index", base):
+                return ("elem", base)  # X[i] inside `for i in range(len(X))` / enumerate(X): the current element
+            return ("sub", base, idx)
         if isinstance(e, ast.Slice):
             f = lambda x: self.term(x, node) if x is not None else ("const", None)  # noqa: E731
             return ("slice", f(e.lower), f(e.upper), f(e.step))
